@@ -15,14 +15,14 @@ LEVEL_TEXT = ("Shadow-model monitor of the real Weaver: an independent model of 
               "in lock-step with the real object and compared after EVERY operation of a history (working == "
               "reference bit for bit while not reshaped; both equal to the model: bit for bit for shift / scale / "
               "truncate / append, to rounding for normalise / repeat; reshaping operations must leave the reference "
-              "bit-identical). Exhaustive over all histories of length <= 3 on a 22-letter alphabet (3 base series in "
+              "bit-identical). Exhaustive over all histories of length <= 3 on a 24-letter alphabet (3 base series in "
               "the thorough tier), random histories up to length 8 interleaved with reshaping operations, each "
               "followed by the recreate + match pipeline judged against the shadow reference, and a commutation pair.")
 LEVEL_NOTE = ("Trusts the 90-line docstring-derived model (models/domain_ops.py) which uses the same IEEE operations "
               "on its own copy of the data; after a rounding-level comparison the model is re-synchronised to the "
               "verified real state so that later exact comparisons stay meaningful.")
 TECHNIQUE = "shadow-model state monitor on the real Weaver after every step of enumerated and random operation histories"
-RULE = ("exhaustive: all sequences of length 0..3 over 22 letters (10 domain operations x 2-3 argument choices) per "
+RULE = ("exhaustive: all sequences of length 0..3 over 24 letters (10 domain operations x 2-3 argument choices) per "
         "base series; random: length 0..8 with random admissible arguments, 35% interleaved reshaping operations, then "
         "random strategy / n / rule pipeline and a shift/scale commutation pair. non-trivial: history contains >= 1 "
         "domain operation that changed the series; distinct by (base, letter sequence) or case index.")
@@ -38,7 +38,7 @@ ALPHABET = [
     ("scale_x", (3.0,)), ("scale_x", (0.1,)),
     ("scale_y", (-2.0,)), ("scale_y", (0.3,)),
     ("normalize_x", (0.0, 1.0)), ("normalize_x", (-5.0, 20.0)),
-    ("normalize_y", (0.0, 1.0)), ("normalize_y", (2.0, 3.5)),
+    ("normalize_y", (0.0, 1.0)), ("normalize_y", (2.0, 3.5)), ("normalize_y", (0, 100000)), ("normalize_x", (0, 10 ** 6)),
     ("repeat", (2,)), ("repeat", (3,)),
     ("truncate_by_value", (0.2, 0.8, True, True)), ("truncate_by_value", (0.0, 0.55, True, True)),
     ("truncate_by_value", (0.3, 1.0, True, True)),
@@ -48,20 +48,26 @@ BASES = [
     (np.array([0.0, 1.0, 2.0, 4.0, 5.0, 7.5, 8.0, 11.0]), np.array([3.0, 1.0, 4.0, 1.0, 5.0, 9.0, 2.0, 6.0])),
     (np.arange(5, 12, dtype=np.int64), np.array([2, 2, 7, 1, 8, 2, 8], dtype=np.int64)),
     (np.array([-3.3, -1.1, 0.7, 1.9, 2.0, 6.25]), np.array([-0.5, 0.25, 0.125, -4.0, 8.0, 0.0])),
+    # narrow integer storage (seconds of a day, small counters): integer-typed requests must not be computed in it
+    (np.array([0, 3600, 7200, 10800, 18000, 21600, 36000], dtype=np.int32),
+     np.array([210, 205, 290, 201, 300, 220, 280], dtype=np.int16)),
 ]
 
 
 def plan(tier, seed):
-    nb = 1 if tier == "quick" else 3
-    specs = [{"kind": "exhaustive", "base": b, "part": p, "parts": 8} for b in range(nb) for p in range(8)]
+    nb = 1 if tier == "quick" else 4
+    bases = [0] if tier == "quick" else list(range(nb))
+    specs = [{"kind": "exhaustive", "base": b, "part": p, "parts": 8} for b in bases for p in range(8)]
+    if tier == "quick":      # the narrow-integer base with a sample of the histories
+        specs += [{"kind": "exhaustive", "base": 3, "part": p, "parts": 32} for p in range(4)]
     n = 6000 if tier == "quick" else 400000
     specs += [{"kind": "random", "start": p * (n // NSHARDS), "count": n // NSHARDS} for p in range(NSHARDS)]
     return specs
 
 
 def exhaustive(tier, merged):
-    return ("all operation sequences of length 0..3 over the 22-letter alphabet (11155 per base series) on %d base "
-            "series" % (1 if tier == "quick" else 3))
+    return ("all operation sequences of length 0..3 over the 24-letter alphabet (14425 per base series) on %d base "
+            "series%s" % (1 if tier == "quick" else 4, " (+ 1/8 of them on the narrow-integer base)" if tier == "quick" else ""))
 
 
 def same_bits(a, b):
@@ -185,6 +191,8 @@ def random_domain_args(rng, op, x, y):
     if op == "scale_y":
         return (float(rng.choice([2.0, -1.0, 0.25, float(rng.normal(0, 3)) or 1.0])),)
     if op in ("normalize_x", "normalize_y"):
+        if rng.integers(0, 4) == 0:
+            return (0, int(rng.choice([7, 100, 10 ** 6, 86_400_000])))       # integer-typed bounds
         lo = float(rng.choice([0.0, -1.0, float(rng.normal(0, 5))]))
         return (lo, lo + float(rng.choice([1.0, 10.0, float(rng.lognormal(0, 1))])))
     if op == "repeat":
@@ -287,7 +295,9 @@ def run_random_case(ctx, kind_, idx):
     if meta["ycls"] == "constant":
         y0 = y0 + np.arange(len(y0))
     if rng.integers(0, 4) == 0 and np.all(x0 == np.round(x0)):
-        x0 = x0.astype(np.int64)
+        x0 = x0.astype(np.int64 if rng.integers(0, 2) or np.max(np.abs(x0)) >= 2 ** 30 else np.int32)
+    if rng.integers(0, 6) == 0 and np.all(y0 == np.round(y0)) and np.max(np.abs(y0)) < 3000:
+        y0 = (y0 * 10 + 200).astype(np.int16)
     wv = Weaver(x0.copy(), y0.copy())
     sh = Shadow(x0, y0)
     hist = []
